@@ -110,6 +110,7 @@ class ConvResult:
         self.kwargs = kwargs or {}
         self.node = node
         self.detail = detail
+        self.base: t.Any = None   # hasconverter: the class whose _converter() is asked
 
     def __repr__(self) -> str:
         if self.kind == 'conv':
@@ -446,6 +447,17 @@ class Interp:
             if inspect.ismodule(x):
                 return hasattr(x, nm)
             raise Undecided(f"hasattr({x!r}, {nm!r})")
+        if fname == 'builtins.getattr' and len(args) in (2, 3) and isinstance(args[0], TypeV) and isinstance(args[1], str):
+            x, nm = args[0], args[1]
+            if nm in x.attrs:
+                return x.attrs[nm]
+            if nm == '__origin__' and x.origin is not None:
+                return x.origin           # typing aliases advertise what get_origin() answers
+            if nm == '__args__' and x.has_args_attr:
+                return tuple(x.args)
+            if nm in ('__origin__', '__args__', '__bound__', '__constraints__', '__metadata__') and len(args) == 3:
+                return args[2]
+            raise Undecided(f"getattr({x!r}, {nm!r})")
         if fname == 'typing.get_origin':
             x = args[0]
             return x.origin if isinstance(x, TypeV) else None
@@ -488,7 +500,9 @@ class Interp:
             if meth == 'keys' and isinstance(base, TableV):
                 return tuple(base.keys)
             if meth == '_converter':
-                return ConvResult('hasconverter', args=args, kwargs=kwargs)
+                res = ConvResult('hasconverter', args=args, kwargs=kwargs)
+                res.base = base
+                return res
         if isinstance(fv, tuple) and fv and fv[0] == 'row':
             # _BASIC_WITH_ARGS[base](*args)
             _, tbl, key, vexp = fv
@@ -795,6 +809,19 @@ def catalogue() -> t.List[t.Tuple[TypeV, t.Callable[[ConvResult], t.Optional[str
     add(TypeV('ClassVar[A]', origin=TypeV('typing.ClassVar', special='typing.ClassVar'), args=(A,), has_args_attr=True),
         raises(), 'other special forms are refused')
     add(_user('class with _converter', has_converter=True), kind('hasconverter'), 'HasConverter protocol')
+    # a generic dataclass bound to arguments (G[int]): a subclass made by the package which advertises the class it was made from
+    # as __origin__ (typing.get_origin() does not know it); its own _converter() is the one that has the substituted field types
+    g_unbound = _user('class G(PaneBase, Generic[T])', has_converter=True)
+    g_bound = TypeV('G[int] (bound generic dataclass)', kclass=KClass('user.G[int]', bases=[g_unbound.kclass], has_converter=True),
+                    attrs={'__origin__': g_unbound})
+
+    def own_converter(r: ConvResult) -> t.Optional[str]:
+        if r.kind != 'hasconverter':
+            return f"dispatched to {r!r}, documented: the class's own _converter()"
+        if r.base is not g_bound:
+            return f"asks {r.base!r} for the converter instead of the bound class (the substituted field types are lost)"
+        return None
+    add(g_bound, own_converter, 'bound generic dataclass is converted by its own converter')
     for sc in (int, float, complex, str, bytes, bytearray, bool, type(None), datetime.datetime, datetime.date, datetime.time,
                decimal.Decimal, fractions.Fraction):
         add(T_real(sc), scalar(sc), f'built-in scalar {sc.__name__}')
